@@ -7,6 +7,7 @@ import SlotVerif.Driver.EgDrv
 import SlotVerif.Driver.ProgDrv
 import SlotVerif.Driver.SnapDrv
 import SlotVerif.Driver.EvDrv
+import SlotVerif.Driver.RunnerDrv
 /-! `svdriver`: reads one case per line `<suite> <body>`, prints one answer line per case. -/
 open SV.Drv
 
@@ -25,6 +26,7 @@ def dispatch (line : String) : String :=
     | "prog" => progRun body
     | "snap" => snapRun body
     | "ev" => evRun body
+    | "runner" => runnerRun body
     | "rules" => rulesRun body
     | _ => "bad-suite"
   | [] => "bad-line"
